@@ -29,7 +29,7 @@ func init() {
 		Quick: 100000, Thorough: 3000000,
 		Run:        runC16,
 		Rule:       "one run = one generated (type, value); evaluations = individual MarshalTo calls, one per destination length L in 0..Size(v)+16 and per buffer shape (cap==len, cap extends into the trailing canary): cut points are exhaustive per value, values are sampled. non-trivial = the value encodes to at least 2 bytes (so that at least one cut lands inside its output); distinct = distinct hash of (type, Marshal(v) bytes)",
-		FaultKinds: []string{"destination-shorter-than-size", "destination-exact", "destination-longer", "cap-extends-past-len", "value-after-other-values-of-the-same-type", "cut-inside-varint-or-tag", "cut-inside-bytes-or-string", "cut-inside-embedded-message", "cut-inside-repeated", "cut-inside-map-entry", "cut-inside-custom-message", "cut-inside-fixed"},
+		FaultKinds: []string{"empty-strings-sliced-from-non-empty-ones", "destination-shorter-than-size", "destination-exact", "destination-longer", "cap-extends-past-len", "value-after-other-values-of-the-same-type", "cut-inside-varint-or-tag", "cut-inside-bytes-or-string", "cut-inside-embedded-message", "cut-inside-repeated", "cut-inside-map-entry", "cut-inside-custom-message", "cut-inside-fixed"},
 		ProbeNames: []string{"values", "values-with-multi-entry-maps(compared canonically)", "values-map-free(compared bytewise)", "size==0", "size>=128(two-byte length prefixes)", "size>=1KiB", "custom-or-Message-types", "unencodable-skipped", "well-formedness-checked(reference parser)"},
 		Real:       []string{"proto.MarshalTo, proto.Size, proto.Marshal, proto.Unmarshal compiled from /repo's working tree with sync and sync/atomic redirected to the shim (deterministic simulated sync.Pool, pristine library state before every run)"},
 		Model:      []string{"destination buffer (simio.GuardedBuf: prefill pattern, canaries on both sides)", "well-behaved user Message / gogo-style custom message implementations"},
@@ -116,6 +116,49 @@ type c16Scenario struct {
 	// Before lists the encodings of the values of the same type that went
 	// through the codec earlier in the run.
 	Before [][]byte `json:"before,omitempty"`
+	// SlicedEmpties: every empty string in the values is the empty tail of a
+	// non-empty string (s[len(s):], non-nil data pointer) instead of "".
+	SlicedEmpties bool `json:"sliced_empties,omitempty"`
+}
+
+var c16Backing = strings.Repeat("backing", 3)
+
+// slicedEmpties replaces every empty string reachable from v by an empty slice
+// of a non-empty string.
+func slicedEmpties(v reflect.Value, depth int) {
+	if depth > 16 || !v.IsValid() {
+		return
+	}
+	switch v.Kind() {
+	case reflect.String:
+		if v.Len() == 0 && v.CanSet() {
+			v.SetString(c16Backing[len(c16Backing)-3:][3:])
+		}
+	case reflect.Ptr, reflect.Interface:
+		if !v.IsNil() && v.Kind() == reflect.Ptr {
+			slicedEmpties(v.Elem(), depth+1)
+		}
+	case reflect.Struct:
+		for i := 0; i < v.NumField(); i++ {
+			if v.Type().Field(i).PkgPath == "" {
+				slicedEmpties(v.Field(i), depth+1)
+			}
+		}
+	case reflect.Slice, reflect.Array:
+		if v.Type().Elem().Kind() == reflect.Uint8 {
+			return
+		}
+		for i := 0; i < v.Len(); i++ {
+			slicedEmpties(v.Index(i), depth+1)
+		}
+	case reflect.Map:
+		for _, k := range v.MapKeys() {
+			e := reflect.New(v.Type().Elem()).Elem()
+			e.Set(v.MapIndex(k))
+			slicedEmpties(e, depth+1)
+			v.SetMapIndex(k, e)
+		}
+	}
 }
 
 func protoTypeOfScenario(name string, shape int, sparse, noMaps bool) *simType {
@@ -169,12 +212,21 @@ func runC16(r *core.Run) {
 			vals = append(vals, vg.New(ty.rt))
 		}
 	}
+	if r.Scenario == nil {
+		sc.SlicedEmpties = t.Chance(1, 3)
+	}
+	if sc.SlicedEmpties {
+		r.Fault("empty-strings-sliced-from-non-empty-ones")
+		for _, v := range vals {
+			slicedEmpties(v, 0)
+		}
+	}
 	var encs [][]byte
 	for i, v := range vals {
 		want, ok := c16CheckValue(r, ty, v, i == 0)
 		if r.V != nil {
 			if r.Scenario == nil {
-				out := &c16Scenario{Before: encs, Value: want}
+				out := &c16Scenario{Before: encs, Value: want, SlicedEmpties: sc.SlicedEmpties}
 				var shape int
 				var sp, nm bool
 				if n, _ := fmt.Sscanf(ty.name, "proto-shape-%d/%t/%t", &shape, &sp, &nm); n == 3 {
